@@ -1,4 +1,4 @@
-package f64
+package math32
 
 import (
 	"testing"
